@@ -31,11 +31,14 @@ structure Inv (cfg : Config) (G : String → Bool) (w : World) : Prop where
 structure CfgOK (cfg : Config) (G : String → Bool) : Prop where
   cleared : ∀ s, G s = true → (cfg.kindOf s).isSome = true → cfg.isCleared s = true
   closed : ∀ s, G s = true → ∀ d ∈ cfg.depsOf s, G d = true
+  /-- no read-only member mutates the cached object of a slot of `G` -/
+  nodamage : ∀ p ∈ cfg.damages, G p.2 = false
 
 /-- Boolean versions, for `decide` on the generated configuration and for the driver -/
 def cfgOKb (cfg : Config) (G : String → Bool) : Bool :=
   cfg.memoised.all (fun p => !G p.1 || cfg.isCleared p.1) &&
-  cfg.deps.all (fun p => !G p.1 || p.2.all G)
+  cfg.deps.all (fun p => !G p.1 || p.2.all G) &&
+  cfg.damages.all (fun p => !G p.2)
 
 /-- the slots whose computation (transitively, through `deps`) reads one of `bad`;
     `fuel` bounds the depth (the number of memoised members suffices) -/
@@ -58,13 +61,15 @@ def Gexcl (cfg : Config) (bad : List String) (s : String) : Bool :=
 def Op.admissible (cfg : Config) (w : World) : Op → Prop
   | .new => True
   | .add i e => cfg.addInvalidates = true ∧
-      (cfg.overrideDetaches = true ∨ findElt (eltsOf w i) e.name = none)
+      ((cfg.overrideDetaches = true ∧ cfg.overrideSel = .all) ∨ findElt (eltsOf w i) e.name = none)
   | .addRaw _ _ => False
   | .addLines i es => cfg.addMultiInvalidates = true ∧
-      (cfg.overrideDetaches = true ∨ (uniqueNames es ∧ ∀ e ∈ es, findElt (eltsOf w i) e.name = none))
-  | .remove _ _ => cfg.removeInvalidates = true
+      ((cfg.overrideDetaches = true ∧ cfg.overrideSel = .all) ∨ (uniqueNames es ∧ ∀ e ∈ es, findElt (eltsOf w i) e.name = none))
+  | .remove _ _ => cfg.removeInvalidates = true ∧ cfg.removeSel = .all
   | .query _ _ => True
   | .derive _ _ es => uniqueNames es
+  | .addFail i es _ late => cfg.addInvalidatesOnError = true ∧ (late = true → cfg.failedAddDetaches = true) ∧
+      ((cfg.overrideDetaches = true ∧ cfg.overrideSel = .all) ∨ (uniqueNames es ∧ ∀ e ∈ es, findElt (eltsOf w i) e.name = none))
 
 /-- every step of the history is admissible and raises no exception -/
 def RunOK (cfg : Config) : World → List Op → Prop
@@ -77,6 +82,11 @@ def Op.isPublic : Op → Prop
   | .addRaw _ _ => False
   | .derive _ _ es => uniqueNames es
   | _ => True
+
+/-- every step of the history is admissible; steps MAY raise (unknown name in `remove`, a malformed line in `add`) -/
+def RunOKF (cfg : Config) : World → List Op → Prop
+  | _, [] => True
+  | w, op :: ops => op.admissible cfg w ∧ RunOKF cfg (step cfg w op).1 ops
 
 /-- no step of the history raises an exception -/
 def NoRaise (cfg : Config) : World → List Op → Prop
